@@ -522,3 +522,55 @@ pub fn obl_prune(s: &mut Src, ctx: &mut Ctx, now_ms: u64, last_ms: u64, thr: u64
         vcheck!(ctx, g.is_none() && a.len() == 0, "[C15] an aircraft last heard T or more seconds ago is removed");
     }
 }
+
+/// C15, BOUNDED native stand-in (real clock, real map; CBMC runs out of memory on BTreeMap::retain
+/// even for one record): last-heard refresh, expiry boundary at six clock phases, re-appearance.
+#[cfg(all(feature = "std", not(kani)))]
+pub fn obl_c15_native(s: &mut Src, ctx: &mut Ctx) {
+    use std::time::{Duration, SystemTime};
+    // last-heard time is refreshed by every counted frame
+    let mut a = Airplanes::new();
+    let before = SystemTime::now();
+    let r = a.incr_messages(KA);
+    let after = SystemTime::now();
+    let lt = a.get(KA).map(|x| x.last_time);
+    vcheck!(ctx, matches!(lt, Some(t) if t >= before && t <= after) && r == Added::Yes, "[C15] every counted frame refreshes the last-heard time");
+    let me = ME::NoPosition([0u8; 6]);
+    let f = mk_frame(false, KB, KA, me);
+    let before = SystemTime::now();
+    let r = a.action(f, (0.0, 0.0), 500.0);
+    let after = SystemTime::now();
+    let lt = a.get(KB).map(|x| x.last_time);
+    vcheck!(ctx, matches!(lt, Some(t) if t >= before && t <= after) && r == Added::Yes, "[C15] every counted frame refreshes the last-heard time");
+    // expiry boundary, at six phases of the wall-clock second
+    let mut phase = 0;
+    while phase < 6 {
+        let now = SystemTime::now();
+        let mut m = Airplanes::new();
+        let mk = |age_ms: i64, n: u32| {
+            let mut st = AirplaneState::default();
+            st.num_messages = n;
+            st.last_time = if age_ms >= 0 { now - Duration::from_millis(age_ms as u64) } else { now + Duration::from_millis((-age_ms) as u64) };
+            st
+        };
+        m.0.insert(KA, mk(500, 1)); // heard 0.5 s ago: kept with T = 1
+        m.0.insert(KB, mk(1500, 2)); // heard 1.5 s ago: removed with T = 1
+        m.0.insert(KC, mk(-10_000, 3)); // clock went backwards: removed
+        m.prune(1);
+        vcheck!(ctx, matches!(m.get(KA), Some(x) if x.num_messages == 1), "[C15] an aircraft heard less than T seconds ago is kept, untouched");
+        vcheck!(ctx, m.get(KB).is_none() && m.get(KC).is_none(), "[C15] an aircraft last heard T or more seconds ago is removed");
+        vcheck!(ctx, m.len() == 1, "[C15] expiry removes nothing else and adds nothing");
+        // an expired aircraft that is heard again is newly added and starts from an empty record
+        let f = mk_frame(false, KB, KA, ME::NoPosition([0u8; 6]));
+        let r = m.action(f, (0.0, 0.0), 500.0);
+        vcheck!(ctx, r == Added::Yes && matches!(m.get(KB), Some(x) if x.num_messages == 1 && x.callsign.is_none() && x.coords.position.is_none()), "[C15] an expired aircraft heard again is reported as newly added and starts from an empty record");
+        let mut z = Airplanes::new();
+        z.0.insert(KA, mk(0, 9));
+        z.prune(0);
+        vcheck!(ctx, z.len() == 0, "[C15] threshold 0 removes every aircraft (heard 0 or more seconds ago)");
+        std::thread::sleep(Duration::from_millis(170));
+        phase += 1;
+    }
+}
+#[cfg(not(all(feature = "std", not(kani))))]
+pub fn obl_c15_native(s: &mut Src, ctx: &mut Ctx) {}
